@@ -8,7 +8,8 @@ R-SANIT   the sanitiser itself: _to_pregex(str) == Pregex(str, escape=True); Pre
 R-CTX     every public parameter that accepts `str | Pregex` (discovered from the annotations): passing the
           string s must emit exactly what passing a Pregex whose text is __escape(s) emits - so no str operand
           ever reaches pattern text unescaped (differential abstract interpretation, all operand type tags)
-R-AFFIX   the affix strings of WordContains / WordStartsWith / WordEndsWith reach pattern text only through Either
+R-AFFIX   WordContains / WordStartsWith / WordEndsWith interpreted with the real core builders: the text emitted for an
+          adversarial affix has the structure of the neutral text with (?:escape(affix)) in place of the neutral affix
 """
 from __future__ import annotations
 
@@ -283,45 +284,42 @@ def run(ctx, model):
                                   "literal operands yield a pattern that re rejects", f.node.lineno, inp=inp, detail=f"{t!r}: {why}")
     ctx.parallel([(f, pname, grp) for f, pname in variadic for grp in groups], many_item)
 
-    # ---------------- R-AFFIX
+    # ---------------- R-AFFIX (semantic): the Word* classes take plain strings only; the constructor is interpreted with
+    # the real core builders for a neutral affix 'q' and for adversarial affixes s; the text emitted for s must have
+    # the structure of the neutral text with (?:<escape(s)>) in place of q.  How the affix travels through the
+    # constructor (helpers, loops, Either(*affix)) does not matter.
     ESS = "pregex.meta.essentials"
-    for cname in ("WordContains", "WordStartsWith", "WordEndsWith"):
+    from ..absdom import compiles
+
+    def affix_item(ctx, item):
+        cname, s, as_list, glob, ext = item
         ci = model.cls(ESS, cname)
         f = ci.methods["__init__"]
-        pname = [p for p in f.params if p not in ("self", "is_global", "is_extensible")][0]
-        uses = []
-        ok = True
-        loopvars = set()
-        for n in ast.walk(f.node):
-            if isinstance(n, ast.For) and isinstance(n.iter, ast.Name) and n.iter.id == pname and isinstance(n.target, ast.Name):
-                loopvars.add(n.target.id)
-        for n in ast.walk(f.node):
-            if isinstance(n, ast.Name) and isinstance(n.ctx, ast.Load) and (n.id == pname or n.id in loopvars):
-                par = model.parents.get(n)
-                gp = model.parents.get(par)
-                kind = None
-                if isinstance(par, ast.Call) and isinstance(par.func, ast.Name) and par.func.id == "isinstance":
-                    kind = "isinstance"
-                elif isinstance(par, ast.List) and isinstance(gp, ast.Assign):
-                    kind = "wrap in list"
-                elif isinstance(par, ast.For):
-                    kind = "iterate"
-                elif isinstance(par, ast.Starred) and isinstance(gp, ast.Call) and ast.unparse(gp.func).endswith("Either"):
-                    kind = "Either(*affix)"
-                elif isinstance(par, ast.FormattedValue):
-                    st = par
-                    while st is not None and not isinstance(st, ast.stmt):
-                        st = model.parents.get(st)
-                    nxt = _next_stmt(model, st)
-                    kind = "error message" if isinstance(nxt, ast.Raise) or isinstance(st, ast.Raise) else None
-                uses.append((n.lineno, norm_text(par)[:50], kind))
-                if kind is None:
-                    ok = False
-                    ctx.violation("R-AFFIX", f.relpath, f.short, norm_text(par)[:80],
-                                  "an affix string is used other than through Either(*affix) (which escapes it)", n.lineno)
-        ctx.instance("R-AFFIX", key=cname, sample=f"{cname}: uses of `{pname}`: {[u[2] for u in uses]}")
-        if not any(u[2] == "Either(*affix)" for u in uses):
-            ctx.violation("R-AFFIX", f.relpath, f.short, "<no Either>", "the affixes never reach Either(*affix)", f.node.lineno)
+
+        def emit(aff):
+            outs = B.run_thunk(model, lambda it: it.construct(ci, [[aff] if as_list else aff, glob, ext]), real_classifier=True, fuel_factor=400)
+            return outs[0]
+        neutral, got = emit("q"), emit(s)
+        inp = f"{cname}({[s] if as_list else s!r}, is_global={glob}, is_extensible={ext})"
+        ctx.instance("R-AFFIX", key=inp, sample=f"{inp} -> {got.describe()[:80]}")
+        if neutral.kind != "return" or neutral.text is None or neutral.text.count("q") != 1:
+            raise AnalysisError(f"R-AFFIX: neutral affix 'q' does not appear exactly once in {neutral.describe()}")
+        if got.kind != "return" or got.text is None:
+            ctx.violation("R-AFFIX", f.relpath, f.short, "affix literal", "a plain affix string is refused", f.node.lineno, inp=inp,
+                          detail=got.describe())
+            return
+        ref = neutral.text.replace("q", "(?:" + escape_of(model, s) + ")")
+        ok, why = B.same_structure(got.text, ref)
+        okc, whyc = compiles(got.text)
+        if ok is False or not okc:
+            ctx.violation("R-AFFIX", f.relpath, f.short, "affix literal",
+                          "an affix string is not taken literally (it does not contribute exactly its escaped text)", f.node.lineno,
+                          inp=inp, detail=why if ok is False else f"{got.text!r}: {whyc}")
+    affixes = [WITNESSES[0], "a.b", "x|y", "(z", "c]", "w+", "\\b", "^$", WITNESSES[12]]
+    items = [(cn, s, as_list, g, e) for cn in ("WordContains", "WordStartsWith", "WordEndsWith") for s in affixes
+             for as_list, g, e in ((False, True, False), (True, False, True))]
+    ctx.parallel(items, affix_item)
+    ctx.floor("R-AFFIX", ctx.rule_counts.get("R-AFFIX", 0), 40, "affix evaluations")
     ctx.exhaustive = ctx.tier == "thorough" or simple
 
 
